@@ -784,7 +784,11 @@ func (s *Entry) Println(args ...any) {
 		s.log1(AlwaysLevel, "")
 		return
 	}
-	s.log1(AlwaysLevel, args[0].(string), args[1:]...)
+	msg, ok := args[0].(string)
+	if !ok {
+		msg = fmt.Sprint(args[0]) // a non-string first argument is printed, not asserted
+	}
+	s.log1(AlwaysLevel, msg, args[1:]...)
 } // Println implements Logger.
 
 //
